@@ -4,6 +4,7 @@
 package main
 
 import (
+	"regexp"
 	"strconv"
 	"strings"
 
@@ -18,12 +19,13 @@ var keyAlphabets = [][]string{
 	{"x/1", "x/2", "x", "y/1", "y"},     // directory-like
 	{"\x00", "\x00\x00", "\xff", "a\x00"}, // binary keys
 }
+var tokRe = regexp.MustCompile(`tok:[0-9]+`)
 var childAlphabet = []string{"c1", "c2", "c3", "", "c1x"}
 var values = []string{"nil", "-", hlib.HexS("v1"), hlib.HexS("v2"), hlib.HexS("a-longer-value-0123456789"), "00"}
 
 func main() {
 	r := hlib.Start()
-	r.Rule = "one case = a fresh memory, aof and sqlite store + a degenerate hash table (all-equal / two buckets / distinct incl. 0 and 2^48-1) + 20..200 random ops (put incl. nil and empty values, get, delete, prefix append/remove/contains/list, listkeys with prefixes, acquire/release for LEASE kinds, removekeys) over 3-6 keys and 3-5 children, each op run identically on the three back-ends; non-trivial = distinct (back-end, op, args, result, position-independent state digest is not tracked: op line text) in a case of >= 5 ops"
+	r.Rule = "one case = fresh real memory, aof and sqlite stores sharing a degenerate hash table (all keys collide / two buckets 0 and 2^48-1 / distinct / random) + 20..200 random ops (put incl. nil and empty values, get, delete, prefix append/remove/contains/list incl. the empty child, listkeys with prefixes, acquire/release so that LEASE kinds appear, removekeys, export) over an alphabet of 3-6 keys (prefixes of each other, empty key, binary keys), each op run identically on the three back-ends; non-trivial = distinct (op, args, the three answers with lease tokens abstracted) inside a case of >= 5 ops"
 	env := kvh.NewEnv(r)
 	defer env.Close()
 	if r.Replay != "" {
@@ -105,7 +107,7 @@ func main() {
 			}
 			key := ""
 			if nops >= 5 {
-				key = line + "=>" + strings.Join(res, "|")
+				key = line + "=>" + tokRe.ReplaceAllString(strings.Join(res, "|"), "tok")
 			}
 			for range res {
 				r.Case(key)
